@@ -1,0 +1,25 @@
+//go:build verif
+
+package externalcmd
+
+// VerifOnStart, when set, is called by Cmd.Start in the caller's goroutine before anything
+// else happens. If it returns true the command is not executed.
+var VerifOnStart func(c *Cmd) bool
+
+// VerifOnClose, when set, is called by Cmd.Close in the caller's goroutine. If it returns
+// true, Close does nothing else.
+var VerifOnClose func(c *Cmd) bool
+
+func verifOnStart(c *Cmd) bool {
+	if VerifOnStart != nil {
+		return VerifOnStart(c)
+	}
+	return false
+}
+
+func verifOnClose(c *Cmd) bool {
+	if VerifOnClose != nil {
+		return VerifOnClose(c)
+	}
+	return false
+}
